@@ -687,6 +687,7 @@ fn twin_router(c: &TwinCfg, blocking: bool, nmw: usize, order: u8, counts: &[Arc
 }
 
 static E2E_DONE: AtomicU64 = AtomicU64::new(0);
+static NO_RESPONSE_SEEN: AtomicU64 = AtomicU64::new(0);
 static E2E_CAP: AtomicU64 = AtomicU64::new(600);
 
 fn async_rt() -> &'static tokio::runtime::Runtime {
@@ -738,7 +739,9 @@ fn tcp_roundtrip(router: Router, frames: &[Vec<u8>], srv: u8, io: u8, salt: u64)
     use std::io::Write;
     let addr = start_server(router, srv, io & 8 != 0)?;
     let mut stream = std::net::TcpStream::connect(addr).map_err(|_| "connect")?;
-    stream.set_read_timeout(Some(std::time::Duration::from_secs(30))).map_err(|_| "timeout")?;
+    // watchdog: 12 s normally; once responses have gone missing in this run, 3 s (the tree is broken anyway)
+    let wd = if NO_RESPONSE_SEEN.load(Ordering::SeqCst) >= 2 { 3 } else { 12 };
+    stream.set_read_timeout(Some(std::time::Duration::from_secs(wd))).map_err(|_| "timeout")?;
     stream.set_nodelay(true).ok();
     let all: Vec<u8> = frames.concat();
     let total = all.len();
@@ -1073,7 +1076,8 @@ fn exec_twin(out: &mut Out, line: &str, w: &[&str]) -> (String, bool) {
                         // timeout is not shorter than our stalls: then all responses are due (30 s watchdog). A dropped
                         // connection or a response that never comes is "not the same response".
                         if e == "no_response" && io & 8 == 0 {
-                            out.oracle_fail(&format!("router.twin.{}.{}.no_response", kind, which), &format!("the server (options {}, io {}) did not deliver all {} responses on the connection although in-process dispatch answers every request", srv, io, frames.len()), &ops);
+                            NO_RESPONSE_SEEN.fetch_add(1, Ordering::SeqCst);
+                            out.oracle_fail(&format!("router.twin.{}.{}.no_response", kind, which), &format!("the server (options {}, io {}) did not deliver all {} responses on the connection within the watchdog although in-process dispatch answers every request", srv, io, frames.len()), &ops);
                         }
                     }
                 }
@@ -2016,6 +2020,23 @@ fn generate(args: &Args) -> Vec<String> {
     }
     for _ in 0..(if thorough { 6000 } else { 250 }) {
         g.derived_scenario();
+    }
+    // (h) request and response frames swept across the 8 KiB / 16 KiB buffer sizes of the servers' BufReader /
+    // BufWriter, on both servers, socket leg forced
+    for base in [8192usize, 16384] {
+        for delta in [-2i64, -1, 0, 1, 2] {
+            for (srv, resp) in [(0u64, false), (0, true), (8, false), (8, true), (2 | 4, true), (1, true)] {
+                let q = TWIN_PATH.len();
+                let frame = (base as i64 + delta) as usize;
+                // request frame = 48 + q + body; JSON echo response frame = 48 + q + body + 9
+                let body_len = frame - 48 - q - if resp { 9 } else { 0 };
+                let body = format!("\"{}\"", "x".repeat(body_len - 2)).into_bytes();
+                g.push(
+                    "twin",
+                    &format!("json 0 1 2 {} {} ok 4096 0 0 1 {} 7 0 1 0 0 0 0 {} {} 1 128", hex(&body), hints_for("json", &body), shex(TWIN_PATH), shex(TWIN_PATH), srv),
+                );
+            }
+        }
     }
     // (k) two knobs at once: every pair of knobs at both extremes, the socket leg forced
     {
